@@ -7,6 +7,7 @@ package main
 import (
 	"go/token"
 	"go/types"
+	"strings"
 
 	"golang.org/x/tools/go/ssa"
 )
@@ -36,32 +37,324 @@ func newC20Pkg(funcs []*ssa.Function) *c20Pkg {
 	return k
 }
 
-// callees returns the set of package functions reachable from root through
-// static calls, go/defer of static callees and closures created in reached
-// functions and invoked/deferred/started there (root included).
+// reach returns the package functions that may run as part of root's own
+// execution (root included): static callees, deferred calls, and — an
+// over-approximation — every package function or function literal whose
+// value is created or mentioned in a reached function (closures handed to
+// helpers, method values, tables of functions), as well as the
+// implementations of package interfaces invoked there. Goroutines started
+// with go are not part of it.
 func (k *c20Pkg) reach(root *ssa.Function) map[*ssa.Function]bool {
 	seen := map[*ssa.Function]bool{}
-	var walk func(f *ssa.Function, viaGo bool)
-	walk = func(f *ssa.Function, viaGo bool) {
+	var walk func(f *ssa.Function)
+	walk = func(f *ssa.Function) {
+		if f == nil {
+			return
+		}
+		if c20IsBoundWrapper(f) {
+			f = k.boundMethod(f)
+		}
 		if f == nil || seen[f] || !k.In[f] {
 			return
 		}
 		seen[f] = true
 		allInstrs(f, func(in ssa.Instruction) {
-			switch x := in.(type) {
-			case *ssa.Go:
-				// a goroutine started here is not part of this function's own execution
-			case ssa.CallInstruction:
-				walk(staticCallee(x), false)
-				// function values handed to sync.Once.Do run synchronously
-				if f := c20OnceDoArg(x); f != nil {
-					walk(f, false)
+			if g, isGo := in.(*ssa.Go); isGo {
+				// the goroutine is not part of this execution, but closures passed to it as arguments might be run by it only
+				_ = g
+				return
+			}
+			if ci, ok := in.(ssa.CallInstruction); ok && ci.Common().IsInvoke() {
+				walk(k.soleImplementation(ci.Common()))
+			}
+			for _, op := range in.Operands(nil) {
+				if op == nil || *op == nil {
+					continue
+				}
+				switch v := (*op).(type) {
+				case *ssa.Function:
+					walk(origin(v))
+				case *ssa.MakeClosure:
+					if fn, ok := v.Fn.(*ssa.Function); ok {
+						walk(origin(fn))
+					}
 				}
 			}
 		})
 	}
-	walk(root, false)
+	walk(root)
 	return seen
+}
+
+// c20IsBoundWrapper: fn is the synthetic closure of a method value (p.m).
+func c20IsBoundWrapper(fn *ssa.Function) bool {
+	return fn != nil && strings.HasPrefix(fn.Synthetic, "bound method wrapper")
+}
+
+// boundMethod returns the declared method a bound-method wrapper calls.
+func (k *c20Pkg) boundMethod(w *ssa.Function) *ssa.Function {
+	if obj, ok := w.Object().(*types.Func); ok && w.Prog != nil {
+		return origin(w.Prog.FuncValue(obj))
+	}
+	return nil
+}
+
+// c20FuncValue is a resolved function value: the package function and, for a
+// method value, the bound receiver.
+type c20FuncValue struct {
+	fn   *ssa.Function
+	recv ssa.Value
+}
+
+// funcValues resolves a function-typed value to the package functions it can
+// be: function literals and named functions, method values, what is stored in
+// a func-typed struct field (all stores of the package), the elements of a
+// literal slice/array of functions. ok=false if some possibility is not a
+// visible package function.
+func (k *c20Pkg) funcValues(v ssa.Value, depth int) ([]c20FuncValue, bool) {
+	if depth > 4 {
+		return nil, false
+	}
+	src, open := k.origins(v)
+	if open || len(src) == 0 {
+		return nil, false
+	}
+	var out []c20FuncValue
+	add := func(fv c20FuncValue) {
+		for _, o := range out {
+			if o.fn == fv.fn {
+				return
+			}
+		}
+		out = append(out, fv)
+	}
+	for _, o := range src {
+		switch q := o.(type) {
+		case *ssa.Function:
+			fn := origin(q)
+			if !k.In[fn] {
+				return nil, false
+			}
+			add(c20FuncValue{fn: fn})
+		case *ssa.MakeClosure:
+			fn, _ := q.Fn.(*ssa.Function)
+			if c20IsBoundWrapper(fn) {
+				m := k.boundMethod(fn)
+				if m == nil || !k.In[m] || len(q.Bindings) != 1 {
+					return nil, false
+				}
+				add(c20FuncValue{fn: m, recv: q.Bindings[0]})
+				continue
+			}
+			fn = origin(fn)
+			if fn == nil || !k.In[fn] {
+				return nil, false
+			}
+			add(c20FuncValue{fn: fn})
+		case *ssa.UnOp:
+			if q.Op != token.MUL {
+				return nil, false
+			}
+			switch ad := q.X.(type) {
+			case *ssa.FieldAddr:
+				// a func-typed field: whatever the package stores there
+				id := fieldIDOfAddr(ad)
+				n := 0
+				okAll := true
+				for _, fn := range k.Funcs {
+					allInstrs(fn, func(in ssa.Instruction) {
+						st, isStore := in.(*ssa.Store)
+						if !isStore {
+							return
+						}
+						fa, isFA := st.Addr.(*ssa.FieldAddr)
+						if !isFA || fieldIDOfAddr(fa) != id {
+							return
+						}
+						if isNilConst(st.Val) {
+							return
+						}
+						n++
+						fvs, ok := k.funcValues(st.Val, depth+1)
+						if !ok {
+							okAll = false
+							return
+						}
+						for _, fv := range fvs {
+							add(fv)
+						}
+					})
+				}
+				if !okAll || n == 0 {
+					return nil, false
+				}
+			case *ssa.IndexAddr:
+				elems := c20LiteralElems(k, ad.X)
+				if elems == nil {
+					return nil, false
+				}
+				for _, e := range elems {
+					fvs, ok := k.funcValues(e, depth+1)
+					if !ok {
+						return nil, false
+					}
+					for _, fv := range fvs {
+						add(fv)
+					}
+				}
+			default:
+				return nil, false
+			}
+		default:
+			return nil, false
+		}
+	}
+	return out, true
+}
+
+// libraryFuncValue: the function value is, on every path, a function or a
+// method value of another package (p.lock.Unlock, time.Now): a known call out
+// of the package, not an unknown one.
+func (k *c20Pkg) libraryFuncValue(v ssa.Value) bool {
+	src, open := k.origins(v)
+	if open || len(src) == 0 {
+		return false
+	}
+	for _, o := range src {
+		var fn *ssa.Function
+		switch q := o.(type) {
+		case *ssa.Function:
+			fn = q
+		case *ssa.MakeClosure:
+			fn, _ = q.Fn.(*ssa.Function)
+			if c20IsBoundWrapper(fn) {
+				if obj, ok := fn.Object().(*types.Func); ok && fn.Prog != nil {
+					fn = fn.Prog.FuncValue(obj)
+				}
+			}
+		}
+		if fn == nil || k.In[origin(fn)] || fn.Parent() != nil && k.In[origin(fn.Parent())] {
+			return false
+		}
+	}
+	return true
+}
+
+// c20LiteralElems: the elements of a fully known literal slice/array value
+// (every element stored once at a constant index), or nil.
+func c20LiteralElems(k *c20Pkg, v ssa.Value) []ssa.Value {
+	src, open := k.origins(v)
+	if open || len(src) != 1 {
+		return nil
+	}
+	var arr *ssa.Alloc
+	switch q := src[0].(type) {
+	case *ssa.Slice:
+		if q.Low != nil || q.High != nil || q.Max != nil {
+			return nil
+		}
+		arr, _ = q.X.(*ssa.Alloc)
+	case *ssa.Alloc:
+		arr = q
+	}
+	if arr == nil {
+		return nil
+	}
+	at, ok := deref(arr.Type()).Underlying().(*types.Array)
+	if !ok {
+		return nil
+	}
+	elems := make([]ssa.Value, at.Len())
+	n := 0
+	for _, r := range refs(arr) {
+		switch q := r.(type) {
+		case *ssa.IndexAddr:
+			c, isC := q.Index.(*ssa.Const)
+			if !isC || c.Value == nil {
+				continue // a read at a variable index
+			}
+			for _, rr := range refs(q) {
+				st, ok := rr.(*ssa.Store)
+				if !ok || st.Addr != ssa.Value(q) {
+					continue
+				}
+				i := int(c.Int64())
+				if i < 0 || i >= len(elems) || elems[i] != nil {
+					return nil
+				}
+				elems[i] = st.Val
+				n++
+			}
+		case *ssa.Slice, *ssa.UnOp:
+		default:
+			return nil
+		}
+	}
+	if n != len(elems) || n == 0 {
+		return nil
+	}
+	return elems
+}
+
+// soleImplementation: cc invokes a method of an interface declared in this
+// package that exactly one named type of the package implements; returns that
+// type's method.
+func (k *c20Pkg) soleImplementation(cc *ssa.CallCommon) *ssa.Function {
+	if !cc.IsInvoke() || len(k.Funcs) == 0 {
+		return nil
+	}
+	n, ok := cc.Value.Type().(*types.Named)
+	if !ok {
+		return nil
+	}
+	var tpkg *types.Package
+	var prog *ssa.Program
+	for _, f := range k.Funcs {
+		if f.Pkg != nil {
+			tpkg, prog = f.Pkg.Pkg, f.Prog
+			break
+		}
+	}
+	if tpkg == nil || n.Obj().Pkg() != tpkg {
+		return nil
+	}
+	iface, ok := n.Underlying().(*types.Interface)
+	if !ok {
+		return nil
+	}
+	var found *ssa.Function
+	cnt := 0
+	for _, name := range tpkg.Scope().Names() {
+		tn, ok := tpkg.Scope().Lookup(name).(*types.TypeName)
+		if !ok || tn.IsAlias() {
+			continue
+		}
+		t := tn.Type()
+		if _, isI := t.Underlying().(*types.Interface); isI {
+			continue
+		}
+		var impl types.Type
+		if types.Implements(t, iface) {
+			impl = t
+		} else if pt := types.NewPointer(t); types.Implements(pt, iface) {
+			impl = pt
+		}
+		if impl == nil {
+			continue
+		}
+		cnt++
+		sel := types.NewMethodSet(impl).Lookup(tpkg, cc.Method.Name())
+		if sel == nil {
+			return nil
+		}
+		if fn, ok := sel.Obj().(*types.Func); ok {
+			found = origin(prog.FuncValue(fn))
+		}
+	}
+	if cnt != 1 || found == nil || !k.In[found] {
+		return nil
+	}
+	return found
 }
 
 // c20OnceDoArg: c is (*sync.Once).Do(f) with a statically known f.
